@@ -12,7 +12,9 @@ Lists are `,`-separated hex strings, `.` is the empty list, `-` the empty byte s
   `P:<args>|<Getenv of every name>` a `probe` line, `X:<child environment strings>` / `X:nul` an `exec` line,
   `O:<args>` anything else.
 * `parse <vars> <line>` — `E` or `A:<args>`.
-* `ox <vars> <text>` — `ts.expand(text)`.
+The tokenizer used here is the index form `parseIdx` (Go's `i`, `start`, `line[start:i]`); it is proved equal
+to the structural `parseLine` of the theorems in GIV.Lemmas.ScriptIdx.
+* `ox <vars> <text>` — `ts.expand(text)`, computed with the index form `osExpandIdx` of os.Expand.
 * `qm <text>` — `regexp.QuoteMeta(text)`.
 * `dedup <strings>` — os/exec dedupEnv: `nul` or the list.
 -/
@@ -29,7 +31,9 @@ def showChild : Except ExecErr (List Bytes) → String
 
 /-- One script line: new state and the observation. -/
 def stepLine (cd : Bytes) (names : List Bytes) (ts : TS) (line : Bytes) : TS × String :=
-  match parseLine ts.envMap line with
+  -- the run loop: `if strings.HasPrefix(line, "#")` is a phase comment, not parsed
+  if line.head? = some 35 then (ts, "N") else
+  match parseIdx ts.envMap line with
   | .error .unterminated => (ts, "E")
   | .error .panic => (ts, "PANIC")
   | .ok [] => (ts, "N")
@@ -58,14 +62,18 @@ def step (line : String) : String :=
   | ["parse", vars, l] =>
     match readList vars, fromHex l with
     | some vars, some l =>
-      match parseLine (TS.setup vars).envMap l with
+      match parseIdx (TS.setup vars).envMap l with
       | .ok args => "A:" ++ showList args
       | .error .unterminated => "E"
       | .error .panic => "PANIC"
     | _, _ => "bad-op"
   | ["ox", vars, t] =>
     match readList vars, fromHex t with
-    | some vars, some t => toHex (expand (TS.setup vars).envMap t)
+    | some vars, some t =>
+      -- the index form of os.Expand (proved equal to the structural one) with expand's mapping
+      match osExpandIdx t (expandMapping (TS.setup vars).envMap) with
+      | some r => toHex r
+      | none => "PANIC"
     | _, _ => "bad-op"
   | ["qm", t] =>
     match fromHex t with
